@@ -117,4 +117,54 @@ example : (readSource Gen.safeKeys {} ⟨[[108,102,115,46,117,114,108,61,104,116
       ignored := [[99,111,114,101,46,97,115,107,112,97,115,115], [108,102,115,46,101,120,116,101,110,115,105,111,110,46,101,46,99,108,101,97,110], [108,102,115,46,101,120,116,101,110,115,105,111,110,46,101,46,112,114,105,111,114,105,116,121], [114,101,109,111,116,101,46,97,46,98,46,112,117,115,104,117,114,108],
                   [99,114,101,100,101,110,116,105,97,108,46,104,101,108,112,101,114], [102,111,111,46,98,97,114,46,97,99,99,101,115,115]] } := by decide
 
+/-! ### the consumer side: which keys tq.configureCustomAdapters turns into a program to run -/
+
+/-- the pattern as it stands in tq/custom.go (regenerated): anchored at both ends, dots escaped -/
+theorem gen_adapter_pattern_anchored :
+    Gen.customAdapterKeyPattern =
+      [94, 108, 102, 115, 92, 46, 99, 117, 115, 116, 111, 109, 116, 114, 97, 110, 115, 102, 101, 114, 92, 46,
+       40, 91, 94, 46, 93, 43, 41, 92, 46, 112, 97, 116, 104, 36] := by decide
+
+def sCustomtransfer : Bytes := [99, 117, 115, 116, 111, 109, 116, 114, 97, 110, 115, 102, 101, 114]
+def sPath : Bytes := [112, 97, 116, 104]
+
+/-- what that anchored pattern accepts: exactly `lfs.customtransfer.<name without a dot>.path` -/
+def isAdapterPathKey (key : Bytes) : Bool :=
+  let parts := splitOn 46 key []
+  parts.length == 4 && parts[0]! == sLfs && parts[1]! == sCustomtransfer && !(parts[2]!).isEmpty && parts[3]! == sPath
+
+theorem getLast_of_len4 (l : List Bytes) (h : l.length = 4) : l.getLast! = l[3]! := by
+  match l, h with
+  | [_, _, _, _], _ => rfl
+
+theorem safeKeys_name_no_adapter : ∀ k ∈ Gen.safeKeys, isAdapterPathKey k = false := by decide
+
+/-- NO key that `.lfsconfig` can get stored names a transfer agent: the keys that ride on the documented
+    patterns `lfs.<url>.access` and `remote.<name>.lfsurl` end in `access` / `lfsurl`, not in `path` -/
+theorem documented_never_names_an_adapter (key : Bytes) (h : Documented Gen.safeKeys key) :
+    isAdapterPathKey key = false := by
+  rcases h with h | h | h
+  · exact safeKeys_name_no_adapter key h
+  · simp only at h
+    obtain ⟨_, _, hl⟩ := h
+    unfold isAdapterPathKey
+    simp only
+    by_cases h4 : (splitOn 46 key []).length = 4
+    · rw [getLast_of_len4 _ h4] at hl
+      simp [hl, sAccess, sPath]
+    · simp [h4]
+  · simp only at h
+    obtain ⟨_, _, hl⟩ := h
+    unfold isAdapterPathKey
+    simp only
+    by_cases h4 : (splitOn 46 key []).length = 4
+    · rw [getLast_of_len4 _ h4] at hl
+      simp [hl, sLfsurl, sPath]
+    · simp [h4]
+
+/-- the un-anchored reading of the same text (the defect D38): the key rides on `lfs.<url>.access` -/
+example : Documented Gen.safeKeys
+    [108,102,115,46,99,117,115,116,111,109,116,114,97,110,115,102,101,114,46,120,46,112,97,116,104,46,97,99,99,101,115,115] := by
+  right; left; decide
+
 end C11
